@@ -90,7 +90,7 @@ class ICMPPacket(BaseModel):
     "ICMP message sequence number."
 
     def __init__(self, **kwargs):
-        if not kwargs.get("identifier"):
+        if kwargs.get("identifier") is None:  # (0 is a valid identifier: the follow-up requests of a ping reuse it)
             kwargs["identifier"] = secrets.randbits(16)
         super().__init__(**kwargs)
 
